@@ -889,7 +889,19 @@ class LuaASTEchoWriter(BaseLuaWriter):
                 else:
                     for t in self._walk(exp):
                         yield t
-                    yield self._get_text(node, b'then')
+                    # (The parser accepts "do" in place of "then".)
+                    then_pos = self._pos
+                    while (then_pos < len(self._tokens) and
+                           isinstance(self._tokens[then_pos],
+                                      (lexer.TokSpace, lexer.TokNewline,
+                                       lexer.TokComment))):
+                        then_pos += 1
+                    if (then_pos < len(self._tokens) and
+                            self._tokens[then_pos].matches(
+                                lexer.TokKeyword(b'do'))):
+                        yield self._get_text(node, b'do')
+                    else:
+                        yield self._get_text(node, b'then')
                     self._indent += 1
                 for t in self._walk(block):
                     yield t
